@@ -189,6 +189,24 @@ func Compare(g, c *Record) []string {
 			n = len(cn)
 		}
 	}
+	// same layout, different MEANING: a field that exists under the same name on both sides must sit at the same
+	// place (two equally sized neighbours swapped on one side keep every offset/size pair intact). Names are
+	// compared after normalisation (case, underscores); a name that exists on one side only says nothing.
+	canon := func(s string) string { return strings.ToLower(strings.ReplaceAll(s, "_", "")) }
+	cidx, dup := map[string]int{}, map[string]bool{}
+	for j, cl := range cn {
+		k := canon(cl.Name)
+		if _, seen := cidx[k]; seen {
+			dup[k] = true
+		}
+		cidx[k] = j
+	}
+	for i, gl := range gn {
+		k := canon(gl.Name)
+		if j, ok := cidx[k]; ok && !dup[k] && j != i && j < len(cn) && (i >= len(cn) || canon(cn[i].Name) != k) && cn[j].Off != gl.Off {
+			d = append(d, fmt.Sprintf("field order: Go %s is at offset %d, the C member of the same name (%s) is at offset %d: the two sides read each other's neighbours", gl.Name, gl.Off, cn[j].Name, cn[j].Off))
+		}
+	}
 	for i := 0; i < n; i++ {
 		gl, cl := gn[i], cn[i]
 		if gl.Off != cl.Off || gl.Size != cl.Size || gl.Elem != cl.Elem {
